@@ -179,7 +179,13 @@ where
         self.inner.seek(SeekFrom::Start(cpos))?;
         self.position = cpos;
 
-        self.read_block()?;
+        if self.read_block()? == 0 {
+            // There is no data at or after this position. Leave an empty block here rather than
+            // the block that was current before seeking.
+            self.block.set_position(self.position);
+            self.block.set_size(0);
+            self.block.data_mut().resize(0);
+        }
 
         self.block.data_mut().set_position(usize::from(upos));
 
